@@ -11,6 +11,7 @@ import YashModel.Syntax.StructLemmas
 import YashModel.Syntax.Closed
 import YashModel.Syntax.Tables
 import YashModel.Syntax.LineLemmas
+import YashModel.Syntax.ArrayLemmas
 namespace YashModel.Syntax
 
 /-- ★ Every escape unit the parser can produce is printed as text that the escape lexer reads back as the
@@ -658,5 +659,131 @@ example : scriptText [nested, [], nested2] =
     ("{ while a; do (b x) | c && ! d& done; if e; then f; elif g; then h; else i; fi; }\n\n" ++
      "f() { for x in a b; do case y in (p | q) c;; (r) ;& (s) d&;| esac; done; } >o\n").toList := by
   decide +kernel
+
+/-! ## Wave 3: array assignments
+
+`parseArrayWords` transcribes `Parser::array_values`; `Piece.arrayAssign` is the fourth kind of piece of a
+simple command, and `SimpleOk` (the leaves of the closed fragment) is now stated over pieces, so commands
+with array assignments are leaves of `structure_roundtrip`, `command_line_roundtrip` and `script_roundtrip`. -/
+
+/-- ★ A simple command with at least one assignment — scalar or array, `name=(w₁ … wₙ)` — words and
+    redirections prints as text that the model of `Parser::simple_command` (with `array_values`) reads back
+    as the same command in front of every command tail. -/
+theorem simple_command_with_arrays_roundtrip (as : List Assign) (ws : List Word)
+    (rs : List (Option Nat × RedirOp × Word)) (tail : List Char) (ht : TailOk tail) (hne : as ≠ [])
+    (hok : PiecesOk ⟨[], [], []⟩ (assignPiecesV as ++ wordPieces ws ++ redirPieces rs) tail)
+    (fuel : Nat) (hf : (printSimple (mkSimpleV as ws rs)).length + 2 ≤ fuel) :
+    parseSimple fuel (printSimple (mkSimpleV as ws rs) ++ tail) = some (some (mkSimpleV as ws rs), tail) := by
+  have := parseSimple_tail _ tail ht (simpleOk_assigns as ws rs tail hne hok) false fuel hf
+  simpa using this
+
+/-- `a=(x y) b=1 c >f` -/
+def arrCmd : SimpleCommand :=
+  mkSimpleV [⟨['a'], .array [digitsWord ['x'], digitsWord ['y']]⟩, ⟨['b'], .scalar (digitsWord ['1'])⟩]
+    [digitsWord ['c']] [(none, .fileOut, digitsWord ['f'])]
+
+example : printSimple arrCmd = "a=(x y) b=1 c >f".toList := by decide +kernel
+
+theorem arrCmd_ok (tail : List Char) :
+    PiecesOk ⟨[], [], []⟩ (assignPiecesV arrCmd.assigns ++ wordPieces arrCmd.words ++
+      redirPieces [(none, .fileOut, digitsWord ['f'])]) tail := by
+  simp only [arrCmd, mkSimpleV, assignPiecesV, wordPieces, redirPieces, List.map_cons, List.map_nil,
+    List.cons_append, List.nil_append, PiecesOk, PieceOk, Builder.push, ArrWordsOk, and_true, true_and]
+  have lit : ∀ (c : Char) (cs : List Char) (next : List Char),
+      (c ≠ '\\' ∧ c ≠ '$' ∧ c ≠ '`' ∧ Delim.token.test c = false ∧ c ≠ '"' ∧ c ≠ '\'' ∧ c ≠ '~' ∧ c ≠ '#') →
+      (∀ x ∈ cs, x ≠ '\\' ∧ x ≠ '$' ∧ x ≠ '`' ∧ Delim.token.test x = false ∧ x ≠ '"' ∧ x ≠ '\'') →
+      TokWordOk (digitsWord (c :: cs)) next := fun c cs next h hcs => litWord_tok c next h cs hcs
+  have ha : assignWord ['a'] [] = digitsWord ['a', '='] := rfl
+  have hb : assignWord ['b'] (digitsWord ['1']) = digitsWord ['b', '=', '1'] := rfl
+  rw [ha, hb]
+  refine ⟨⟨lit _ _ _ (by decide) (by decide), by decide, by decide, lit _ _ _ (by decide) (by decide),
+    lit _ _ _ (by decide) (by decide)⟩, ⟨lit _ _ _ (by decide) (by decide), by decide, by decide, by decide,
+    by simp [digitsWord]⟩, ⟨lit _ _ _ (by decide) (by decide), fun _ => ⟨by decide, fun h => by simp [Builder.isEmpty]⟩,
+    fun h => absurd rfl h⟩, trivial, lit _ _ _ (by decide) (by decide)⟩
+
+
+/-- non-vacuity: `a=(x y) b=1 c >f` in front of `;` -/
+example (rest : List Char) :
+    parseSimple 40 (printSimple arrCmd ++ ';' :: rest) = some (some arrCmd, ';' :: rest) :=
+  simple_command_with_arrays_roundtrip _ _ _ _ (tailOk_cons _ _ (Or.inl rfl)) (by simp [arrCmd, mkSimpleV]) (arrCmd_ok _) 40
+    (by decide +kernel)
+
+/-- the command with the array assignment as a leaf of the closed fragment: a script line -/
+theorem arr_line_ok (rest : List Char) : LineOk [it1 (.simple arrCmd)] rest := by
+  simp only [LineOk, it1, ItemsOk, AndOrOk, AndOrRestOk, PipelineOk, CommandsOk, CommandOk, pipeRest, aoRest,
+    List.nil_append, ne_eq, reduceCtorEq, not_false_eq_true, List.cons_ne_self, and_true, true_and,
+    Bool.false_eq_true, if_false]
+  exact ⟨simpleOk_assigns _ _ _ _ (by simp [arrCmd, mkSimpleV]) (arrCmd_ok _), tailOk_cons _ _ (by decide)⟩
+
+example : parseScript (scriptText [[it1 (.simple arrCmd)], nested]) = some [[it1 (.simple arrCmd)], nested] :=
+  script_roundtrip _ ⟨arr_line_ok _, nested_line_ok _, trivial⟩
+
+/-! ## Wave 3: rejections at the boundaries of the statements above -/
+
+/-- `Parser::command_line` does not accept a line that ends in front of a `)` (`UnopenedSubshell`): the same
+    printed list that `structure_roundtrip` reads inside parentheses is a syntax error as a command line. -/
+theorem command_line_rejects_close_paren (l : List Item) (rest : List Char) (h : ProgramOk l rest) :
+    parseLine (printList false l ++ ')' :: rest) = none := by
+  unfold parseLine
+  have hd := ldepth_le false l
+  exact commandLine_rparen _ l rest h (by simp only [List.length_append, List.length_cons]; omega)
+
+example (rest : List Char) : parseLine (printList false nested ++ ')' :: rest) = none :=
+  command_line_rejects_close_paren nested rest (nested_ok rest)
+
+/-- the boundary of `FdOk` in `redirection_roundtrip`: an IO_NUMBER above `i32::MAX` in front of `<` or `>` is
+    the syntax error `FdOutOfRange`, whatever follows -/
+theorem redirection_fd_out_of_range (n : Nat) (hn : 2147483647 < n) (c : Char) (body : List Char)
+    (hc : c = '<' ∨ c = '>') (sp : Bool) :
+    parseRedir ((if sp then [' '] else []) ++ (printNat n ++ c :: body)) = none :=
+  parseRedir_fd_out_of_range n hn c body hc sp
+
+example : parseRedir "2147483648>f;".toList = none := by decide +kernel
+example : (parseRedir "2147483647>f;".toList).isSome = true := by decide +kernel
+
+/-! ## Wave 3: the consumers named by the property (what the user is shown) -/
+
+/-- ★ What `typeset -fp` shows (`print_one`: the function definition and a newline; the `F` cases compare
+    exactly this text with the built-in's output): for a definition of the closed fragment the shown line is
+    read back by `Parser::command_line` as that one function definition. -/
+theorem typeset_listing_roundtrip (name : Word) (body : CompoundCommand) (rs : List Redir) (rest : List Char)
+    (h : CommandOk (.function false name body rs) ('\n' :: rest)) :
+    parseLine (printCommand (.function false name body rs) ++ '\n' :: rest) =
+      some (some [it1 (.function false name body rs)], rest) := by
+  have hl : LineOk [it1 (.function false name body rs)] rest := by
+    simp only [LineOk, it1, ItemsOk, AndOrOk, AndOrRestOk, PipelineOk, CommandsOk, pipeRest, aoRest,
+      List.nil_append, ne_eq, not_false_eq_true, List.cons_ne_self, and_true, true_and,
+      Bool.false_eq_true, if_false]
+    exact h
+  have := command_line_roundtrip _ rest hl
+  simpa [printList, printItem, printAndOr, printPipeline, printCommands, printAndOrRest, it1] using this
+
+/-- ★ What `jobs` shows (the job name is `and_or.to_string()`; the `J` cases compare this text): for an and-or
+    list of the closed fragment the name, as a line, is read back as that and-or list. -/
+theorem job_name_roundtrip (a : AndOrList) (rest : List Char) (h : AndOrOk a ('\n' :: rest)) :
+    parseLine (printAndOr a ++ '\n' :: rest) = some (some [.mk a false], rest) := by
+  have hl : LineOk [.mk a false] rest := by
+    simp only [LineOk, ItemsOk, Bool.false_eq_true, if_false, List.nil_append]
+    exact h
+  have := command_line_roundtrip _ rest hl
+  simpa [printList, printItem] using this
+
+
+/-- non-vacuity: the function definition of `nested2` as `typeset -fp` shows it -/
+example (rest : List Char) :
+    parseLine ("f() { for x in a b; do case y in (p | q) c;; (r) ;& (s) d&;| esac; done; } >o".toList ++ '\n' :: rest) =
+      some (some nested2, rest) := by
+  have h := nested2_line_ok rest
+  have e : printList false nested2 =
+      "f() { for x in a b; do case y in (p | q) c;; (r) ;& (s) d&;| esac; done; } >o".toList := by decide +kernel
+  rw [← e]
+  exact command_line_roundtrip nested2 rest h
+
+/-- non-vacuity: the and-or list of `nested` as a job name -/
+example (rest : List Char) :
+    ∃ a, nested = [.mk a false] ∧ parseLine (printAndOr a ++ '\n' :: rest) = some (some [.mk a false], rest) := by
+  refine ⟨_, rfl, job_name_roundtrip _ rest ?_⟩
+  have h := nested_line_ok rest
+  simpa only [LineOk, nested, it1, ItemsOk, Bool.false_eq_true, if_false, List.nil_append] using h
 
 end YashModel.Syntax
